@@ -78,6 +78,35 @@ class Engine:
                 return (e, pol, a)
         return None
 
+    def unguarded_path(self, fn: FuncInfo, node: ast.AST, pred: Callable[[ast.AST, bool], bool],
+                       expand: Optional[Callable[[ast.AST], ast.AST]] = None) -> Optional[str]:
+        """Path-sensitive must-check-before: every path that reaches `node` must have
+        passed, AFTER its last suspension point, a branch edge whose condition atom
+        satisfies pred(expr, polarity). Returns a witness path (text) from the entry
+        or from a suspension point to the node that passes no such edge, else None."""
+        c = self.cfg(fn)
+        targets = [n for n in c.nodes_for(node) if n in c.reachable_nodes()]
+        if not targets:
+            return None
+        cache: dict[int, bool] = {}
+
+        def is_guard(n: Node) -> bool:
+            if n.kind != 'assume':
+                return False
+            if n.id not in cache:
+                e = expand(n.ast) if expand else n.ast
+                cache[n.id] = any(pred(a, pol) for a, pol in split_conj(e, n.polarity))
+            return cache[n.id]
+        starts = [c.entry] + [n for n in c.reachable_nodes() if n.suspends and n not in targets]
+        for s in sorted(starts, key=lambda n: n.id):
+            nxt = [x for x, lab in s.succ]
+            p = c.find_path(nxt, lambda n: n in targets, avoid=lambda n: is_guard(n) or (n.suspends and n not in targets))
+            if p is None and any(x in targets for x in nxt):
+                p = [(x, 'next') for x in nxt if x in targets][:1]
+            if p is not None:
+                return f'from line {s.lineno or "entry"}: ' + c.describe_path(p, fn.where)
+        return None
+
     def handler_context(self, fn: FuncInfo, node: ast.AST) -> list[ast.ExceptHandler]:
         """except-handlers whose body (lexically) contains node."""
         out = []
